@@ -953,15 +953,17 @@ var errEmptyId = group.ProtocolError("empty id")
 // remove and addnew never modify l in place: permission slices are shared
 // with the group description, the role table and stateful tokens.
 func remove(v string, l []string) []string {
-	for i, w := range l {
-		if v == w {
-			r := make([]string, 0, len(l)-1)
-			r = append(r, l[:i]...)
-			r = append(r, l[i+1:]...)
-			return r
+	if !slices.Contains(l, v) {
+		return l
+	}
+	// remove all occurrences, a permission may be listed twice
+	r := make([]string, 0, len(l)-1)
+	for _, w := range l {
+		if v != w {
+			r = append(r, w)
 		}
 	}
-	return l
+	return r
 }
 
 func addnew(v string, l []string) []string {
